@@ -17,10 +17,16 @@ theorem inv_setS_setT {cfg : Cfg} {st : St} {i : Nat} {pc pc' : PC} {s : Nat} {x
     (hr : x'.retired = (getS st s).retired) (hok : PCok st pc')
     (hcount : x'.refs = (x'.held : Int) + (cnt (uDec s) (st.ths.set i pc') : Int))
     (hdec : ∀ s', s' ≠ s → uDec s' pc' = uDec s' pc)
-    (hretire : x'.retired + cnt (uRet s) (st.ths.set i pc') = if x'.refs = 0 then 1 else 0)
+    (hretire : x'.retired + cnt (uRet s) (st.ths.set i pc') + cnt (uRet2 s) st.ths =
+      if x'.refs = 0 then 1 else 0)
     (hret : ∀ s', s' ≠ s → uRet s' pc' = uRet s' pc)
+    (hret2 : ∀ s', uRet2 s' pc' = uRet2 s' pc)
     (hcrit : uCrit pc' = uCrit pc) (hresp : uResp pc ≤ uResp pc') :
     Inv cfg (setT (setS st s x') i pc') := by
+  have hc2 : ∀ s', cnt (uRet2 s') (st.ths.set i pc') = cnt (uRet2 s') st.ths := by
+    intro s'
+    have e := cnt_set (uRet2 s') st.ths i pc pc' hi
+    rw [hret2] at e; omega
   have hlen : (setT (setS st s x') i pc').snaps.length = st.snaps.length := by simp [setT, setS]
   have hget : ∀ s', getS (setT (setS st s x') i pc') s' = if s = s' then x' else getS st s' :=
     fun s' => by rw [getS_setT, getS_setS _ _ _ _ h1 h2]
@@ -36,7 +42,8 @@ theorem inv_setS_setT {cfg : Cfg} {st : St} {i : Nat} {pc pc' : PC} {s : Nat} {x
       simp only [e, if_false]; omega
   · intro s' h1' h2'
     rw [hget]
-    show _ + cnt (uRet s') (st.ths.set i pc') = _
+    show _ + cnt (uRet s') (st.ths.set i pc') + cnt (uRet2 s') (st.ths.set i pc') = _
+    rw [hc2]
     by_cases e : s = s'
     · subst e; simpa using hretire
     · have := h.retire s' h1' (by omega)
@@ -55,6 +62,8 @@ theorem inv_setS_setT {cfg : Cfg} {st : St} {i : Nat} {pc pc' : PC} {s : Nat} {x
     · simp only [e, if_false]; exact this
   · intro s'
     rw [hget, hlen]
+    show _ ↔ (_ ∧ _ ∧ _ ∧ cnt (uRet2 s') (st.ths.set i pc') = 0)
+    rw [hc2]
     have := h.live_iff s'
     by_cases e : s = s'
     · subst e; simp only [if_true]; rw [hr]; exact this
@@ -81,7 +90,7 @@ theorem inv_startClose {cfg : Cfg} {st : St} {i s : Nat} (h : Inv cfg st)
     (hh : 0 < (getS st s).held) :
     Inv cfg (setT (setS st s { getS st s with held := (getS st s).held - 1 }) i (.closeDec s)) := by
   refine inv_setS_setT (pc' := .closeDec s) (x' := { getS st s with held := (getS st s).held - 1 })
-    h hi h1 h2 rfl (show PCok st (.closeDec s) from ⟨h1, h2⟩) ?_ ?_ ?_ ?_ ?_ ?_
+    h hi h1 h2 rfl (show PCok st (.closeDec s) from ⟨h1, h2⟩) ?_ ?_ ?_ ?_ ?_ ?_ ?_
   · have := h.count s h1 h2
     have e := cnt_set (uDec s) st.ths i .idle (.closeDec s) hi
     simp [uDec] at e
@@ -91,9 +100,10 @@ theorem inv_startClose {cfg : Cfg} {st : St} {i s : Nat} (h : Inv cfg st)
   · have := h.retire s h1 h2
     have e := cnt_set (uRet s) st.ths i .idle (.closeDec s) hi
     simp [uRet] at e
-    show (getS st s).retired + _ = if (getS st s).refs = 0 then 1 else 0
+    show (getS st s).retired + _ + _ = if (getS st s).refs = 0 then 1 else 0
     omega
   · intro s' _; simp [uRet]
+  · intro s'; rfl
   · simp [uCrit]
   · simp [uResp]
 
@@ -104,7 +114,7 @@ theorem inv_openCasOk {cfg : Cfg} {st : St} {i s : Nat} {rc : Int} (h : Inv cfg 
   obtain ⟨h1, h2, hpos⟩ := h.pcs i _ hi
   refine inv_setS_setT (pc' := .idle)
     (x' := { getS st s with refs := rc + 1, held := (getS st s).held + 1 })
-    h hi h1 h2 rfl (show PCok st .idle from trivial) ?_ ?_ ?_ ?_ ?_ ?_
+    h hi h1 h2 rfl (show PCok st .idle from trivial) ?_ ?_ ?_ ?_ ?_ ?_ ?_
   · have := h.count s h1 h2
     have e := cnt_set (uDec s) st.ths i _ .idle hi
     simp [uDec] at e
@@ -114,13 +124,14 @@ theorem inv_openCasOk {cfg : Cfg} {st : St} {i s : Nat} {rc : Int} (h : Inv cfg 
   · have := h.retire s h1 h2
     have e := cnt_set (uRet s) st.ths i _ .idle hi
     simp [uRet] at e
-    show (getS st s).retired + _ = if rc + 1 = 0 then 1 else 0
+    show (getS st s).retired + _ + _ = if rc + 1 = 0 then 1 else 0
     rw [hrc] at this
     have a : ¬ rc = 0 := by omega
     have b : ¬ rc + 1 = 0 := by omega
     simp only [a, b, if_false] at this ⊢
     omega
   · intro s' _; simp [uRet]
+  · intro s'; rfl
   · simp [uCrit]
   · simp [uResp]
 
@@ -141,7 +152,7 @@ theorem inv_closeDec {cfg : Cfg} {st : St} {i s : Nat} (h : Inv cfg st)
     rw [closeRetire_iff] at hz
     refine inv_setS_setT (pc' := .closeRetire s)
       (x' := { getS st s with refs := (getS st s).refs - 1 })
-      h hi h1 h2 rfl (show PCok st (.closeRetire s) from ⟨h1, h2⟩) ?_ ?_ ?_ ?_ ?_ ?_
+      h hi h1 h2 rfl (show PCok st (.closeRetire s) from ⟨h1, h2⟩) ?_ ?_ ?_ ?_ ?_ ?_ ?_
     · have e := cnt_set (uDec s) st.ths i _ (.closeRetire s) hi
       simp [uDec] at e
       show (getS st s).refs - 1 = ((getS st s).held : Int) + _
@@ -149,16 +160,17 @@ theorem inv_closeDec {cfg : Cfg} {st : St} {i s : Nat} (h : Inv cfg st)
     · intro s' hs'; simp [uDec]; omega
     · have e := cnt_set (uRet s) st.ths i (.closeDec s) (.closeRetire s) hi
       simp [uRet] at e
-      show (getS st s).retired + _ = if (getS st s).refs - 1 = 0 then 1 else 0
+      show (getS st s).retired + _ + _ = if (getS st s).refs - 1 = 0 then 1 else 0
       simp only [hz, if_true]; omega
     · intro s' hs'; simp [uRet]; omega
+    · intro s'; rfl
     · simp [uCrit]
     · simp [uResp]
   · simp only [hz]
     rw [closeRetire_iff] at hz
     refine inv_setS_setT (pc' := .idle)
       (x' := { getS st s with refs := (getS st s).refs - 1 })
-      h hi h1 h2 rfl (show PCok st .idle from trivial) ?_ ?_ ?_ ?_ ?_ ?_
+      h hi h1 h2 rfl (show PCok st .idle from trivial) ?_ ?_ ?_ ?_ ?_ ?_ ?_
     · have e := cnt_set (uDec s) st.ths i _ .idle hi
       simp [uDec] at e
       show (getS st s).refs - 1 = ((getS st s).held : Int) + _
@@ -166,9 +178,10 @@ theorem inv_closeDec {cfg : Cfg} {st : St} {i s : Nat} (h : Inv cfg st)
     · intro s' hs'; simp [uDec]; omega
     · have e := cnt_set (uRet s) st.ths i (.closeDec s) .idle hi
       simp [uRet] at e
-      show (getS st s).retired + _ = if (getS st s).refs - 1 = 0 then 1 else 0
+      show (getS st s).retired + _ + _ = if (getS st s).refs - 1 = 0 then 1 else 0
       simp only [hz, if_false]; omega
     · intro s' _; simp [uRet]
+    · intro s'; rfl
     · simp [uCrit]
     · simp [uResp]
 
